@@ -11,7 +11,7 @@ HARNESSES = []
 def _h(name, bounds, unwind=6, quick=None, thorough=None, dbg_kf=True, dbg=True, kf=None, dbg_quick=True, dbg_filter=None, **kw):
     """dbg_quick=False: the asserts-on twin runs in the thorough tier only (no assert is involved in that code path; budget).
     dbg_filter: keeps, for the asserts-on twin, only the configurations that are not wholly inside the pending finding's region (mismatching dims abort)."""
-    quick = quick or [{}]; thorough = thorough or quick
+    quick = [{}] if quick is None else quick; thorough = thorough or quick
     base = {'_unwindset': _US}
     if kf and _PENDING_ON: base[kf] = 1            # TEMPORARY: pending finding (see PENDING_FINDINGS)
     def cfgs(cs, extra): return [dict(c, **extra) for c in cs]
@@ -40,8 +40,8 @@ FA = ('quick tier: element values and eps from the alphabet {0, 1, 1.5, -1, 1.00
       'thorough tier: every bit pattern')
 _h('close_f32', 'float/float scalars; ' + FL, dbg_kf=False, backend='cadical', dbg_quick=False)
 _h('close_lemma', 'symmetry of the reference |a-b| < eps itself (IEEE-754), float (quick) and double (thorough); ' + FL, dbg=False, backend='cadical', quick=[{'LEMMA': 32}], thorough=[{'LEMMA': 32}, {'LEMMA': 64}], gate=False)
-_h('close_f64', 'double/double scalars; ' + FL, dbg_kf=False, backend='cadical', kf='KF_C18_CLOSE_DOUBLE_ROUNDS_TO_FLOAT', dbg_quick=False)
-_h('close_f32_f64', 'float/double scalars; ' + FL, dbg_kf=False, backend='cadical', kf='KF_C18_CLOSE_DOUBLE_ROUNDS_TO_FLOAT', dbg_quick=False)
+_h('close_f64', 'double/double scalars; ' + FL, dbg_kf=False, backend='cadical', kf='KF_C18_CLOSE_DOUBLE_ROUNDS_TO_FLOAT', dbg_quick=False, timeout=900)
+_h('close_f32_f64', 'float/double scalars; ' + FL, dbg_kf=False, backend='cadical', kf='KF_C18_CLOSE_DOUBLE_ROUNDS_TO_FLOAT', dbg_quick=False, timeout=900)
 _h('close_uint', 'unsigned/unsigned scalars, double eps: all values', dbg_kf=False, kf='KF_C18_CLOSE_UNSIGNED_WRAPS')
 _h('close_int', 'int/int scalars, double eps: all values', dbg_kf=False, kf='KF_C18_CLOSE_INT_OVERFLOW')
 ND = 'extents 0..MAXE symbolic on both sides (same shape, same size with another shape, other sizes), all element data symbolic; both call orders'
@@ -79,7 +79,7 @@ PENDING_FINDINGS = [
       witness_inputs=['0x0', '0x3', '0x6', '0x6', '0x5', '0x0', '0x1', '0x7', '0x0'],
       what='isclose(either, value, eps) and isclose(value, either, eps) ignore eps: the one-sided either branches call isclose without it (default 1e-6)'),
  dict(id='F-C18-close-double-rounds-to-float', harness='close_f32_f64', exclude_define='KF_C18_CLOSE_DOUBLE_ROUNDS_TO_FLOAT', witness_config={},
-      witness_inputs=['0xffffffff00000000', '0x707ffffcffff7ff', '0x707ffffcffff7ff', '0x2'],
+      witness_inputs=['0xffffffff00000000', '0xbbf7ffffeffff7ff', '0x3bf7ffffeffff7ff', '0x0'],
       what='isclose on double operands rounds |a-b| to float (constexpr_fabs<Float=float>) before comparing with eps'),
  dict(id='F-C18-close-double-rounds-to-float', harness='close_f64', exclude_define='KF_C18_CLOSE_DOUBLE_ROUNDS_TO_FLOAT', witness_config={},
       witness_inputs=['0x81132c3a000000e9', '0x81132c39fffff708', '0x8e10000', '0x0'],
@@ -117,6 +117,9 @@ PENDING_FINDINGS = [
  dict(id='F-C18-eq-mixed-sign-truncates', harness='idx_svi_sv', exclude_define='KF_C18_EQ_MIXED_SIGN_TRUNCATES', witness_config={},
       witness_inputs=['0x4', '0x4', '0x0', '0x0', '0x0', '0x80000000', '0xffffffff80000000', '0x0', '0x0', '0x0', '0x0', '0x0', '0x0', '0x0'],
       what='isequal(int index array, size_t index array) casts the size_t side to int (promote_index_t picks the signed type): values >= 2^31 compare equal to their truncation'),
+ dict(id='F-C18-dbg-mismatch-aborts', harness='idx_svi_sv_dbg', exclude_define='KF_C18_DBG_MISMATCH_ABORTS', witness_config={'DBG': 1},
+      witness_inputs=['0x0', '0x4', '0x1', '0x0', '0x0', '0x8', '0x0', '0x0', '0x0', '0x1', '0x0', '0x1', '0x0', '0x0'],
+      what='asserts-on build: isequal/isclose of operands with different length / dimension / shape stops in assert() (abort) instead of returning false'),
  dict(id='F-C18-eq-mixed-sign-truncates', harness='idx_svi_sv_dbg', exclude_define='KF_C18_EQ_MIXED_SIGN_TRUNCATES', witness_config={'DBG': 1},
       witness_inputs=['0x4', '0x4', '0x0', '0x0', '0x0', '0x80000000', '0xffffffff80000000', '0x0', '0x0', '0x0', '0x0', '0x0', '0x0', '0x0'],
       what='isequal(int index array, size_t index array) casts the size_t side to int (promote_index_t picks the signed type): values >= 2^31 compare equal to their truncation'),
@@ -139,7 +142,7 @@ PENDING_FINDINGS = [
       witness_inputs=['0x0', '0x3', '0x6', '0x6', '0x5', '0x0', '0x1', '0x7', '0x0'],
       what='isclose(either, value, eps) and isclose(value, either, eps) ignore eps: the one-sided either branches call isclose without it (default 1e-6)'),
  dict(id='F-C18-close-double-rounds-to-float', harness='close_f32_f64_dbg', exclude_define='KF_C18_CLOSE_DOUBLE_ROUNDS_TO_FLOAT', witness_config={'DBG': 1},
-      witness_inputs=['0xffffffff00000000', '0x707ffffcffff7ff', '0x707ffffcffff7ff', '0x2'],
+      witness_inputs=['0xffffffff00000000', '0xbbf7ffffeffff7ff', '0x3bf7ffffeffff7ff', '0x0'],
       what='isclose on double operands rounds |a-b| to float (constexpr_fabs<Float=float>) before comparing with eps'),
  dict(id='F-C18-close-double-rounds-to-float', harness='close_f64_dbg', exclude_define='KF_C18_CLOSE_DOUBLE_ROUNDS_TO_FLOAT', witness_config={'DBG': 1},
       witness_inputs=['0x81132c3a000000e9', '0x81132c39fffff708', '0x8e10000', '0x0'],
